@@ -95,11 +95,16 @@ def native_playback(wsdir, sp, test_name, test_src, release=False):
         cmd += ["--no-default-features", "--features", ws.FEATURES]
     cmd += ["--", test_name]
     env = dict(os.environ, CARGO_NET_OFFLINE="true")
-    try:
-        p = subprocess.run(cmd, cwd=wsdir, env=env, capture_output=True, text=True, timeout=1500)
-    except subprocess.TimeoutExpired:
-        return None, "native playback timed out"
-    out = p.stdout + p.stderr
+    out = ""
+    for attempt in range(2):
+        try:
+            p = subprocess.run(cmd, cwd=wsdir, env=env, capture_output=True, text=True, timeout=1500)
+        except subprocess.TimeoutExpired:
+            return None, "native playback timed out"
+        out = p.stdout + p.stderr
+        # a build that was killed under memory pressure ("build failed" without a compiler error) is retried once
+        if "test result:" in out or "panicked at" in out or re.search(r"^error(\[E\d+\])?:", out, re.M):
+            break
     if re.search(r"test result: FAILED|panicked at", out):
         m = re.search(r"panicked at ([^\n]*)\n([^\n]*)", out)
         return True, (m.group(1) + ": " + m.group(2)) if m else "playback test failed"
